@@ -32,6 +32,10 @@ CHECKS = {
    text="seeded deterministic simulation of fragmenting senders (headers 20-60 bytes, payloads up to 65515, cuts at multiples of 8), a reordering/duplicating/dropping network with key reuse, a hostile injector and discard timers on a simulated clock in front of the real IPv4 defragmenter (and fragments in any order with duplicates in front of the IPv6 one); a per-key model of the received set decides at every call whether nothing, an error or exactly the original datagram must come back, and every returned byte must have been placed at its offset by a received fragment.",
    note="trusted: harness fragmenter and per-key model; fragments are built field by field with consistent Length; IPv6 behaviour after completion and IPv6 discard (reads the real clock) are not checked",
    tech="deterministic discrete-event simulation with network and hostile-input fault injection; reference-model oracle"),
+ "C14": dict(cat="fault_enumeration", engine="sim-disk", ref="4 C14",
+   text="seeded captures are written by the real pcap (us/ns) and pcapng writers into a simulated file; the round trip is checked through a chunked simulated stream with the copying and zero-copy calls (and by libpcap for a seeded subset), and then the crash space is enumerated: the file is cut at every byte offset (exhaustive for files up to 2 KiB; all write boundaries +-2 plus a seeded sample beyond) and the reader must return exactly the wholly contained packets and then an EOF-class error. Exhaustive over cut positions per file; the files are seeded samples.",
+   note="trusted: harness packet generator and comparison; block boundaries are taken from the simulated file's length after each flushed packet; libpcap is a second reader for single-link-type files only",
+   tech="deterministic simulation of file and stream with crash-point enumeration (cut at every byte) and short-read injection"),
 }
 
 def main():
@@ -68,6 +72,7 @@ def main():
       },
       "engines": [
         {"name": "des-defrag", "path": "props/defrag", "serves_properties": ["C13"], "kind_free_text": "single-threaded discrete-event simulation: fragmenting senders, lossy network, hostile injector, simulated clock; per-key reference model"},
+        {"name": "sim-disk", "path": "sim/disk", "serves_properties": ["C14","C15"], "kind_free_text": "simulated file (write log, crash = cut at a byte) and simulated stream (seeded chunking, data+EOF, injected read error at an offset, post-EOF spin detection)"},
         {"name": "des-tcp", "path": "sim/tcpsim", "serves_properties": ["C09","C10","C11"], "kind_free_text": "single-threaded discrete-event simulation: TCP senders, lossy network, simulated clock, flush timers; reference delivery/lifecycle model"},
       ],
       "checks": checks,
